@@ -334,7 +334,8 @@ def gen_attr(rng, shape, allow_self, helper_ok, derive_suffix):
 
     def new_alias(want_count=False):
         free = [a for a in ALIAS_POOL if a not in aliases and a not in field_names]
-        shadow = [n for n in field_names if n not in aliases and re.match(r"^[a-z]\w*$", n) and n not in KEYWORDS]
+        shadow = [n for n in field_names if n not in aliases and re.match(r"^[a-z]\w*$", n) and n not in KEYWORDS
+                  and field_names[n] not in at.captured]
         if shadow and rng.random() < 0.08:
             name = rng.choice(shadow)
         elif free:
@@ -514,12 +515,12 @@ def gen_attr(rng, shape, allow_self, helper_ok, derive_suffix):
 KEYWORDS = set("as break const continue crate else enum extern false fn for if impl in let loop match mod move mut pub ref return self Self static struct super trait true type unsafe use where while async await dyn abstract become box do final macro override priv typeof unsized virtual yield try gen".split())
 
 
-def known_transparent_pointer(at, shape):
-    """Precise predicate of the one known defect: the whole literal is a single modifier-free `{..:p}`
+def is_transparent_pointer_arg(at, shape):
+    """Coverage tag (defect fixed in /repo 04c7624): the whole literal is a single modifier-free `{..:p}`
     placeholder whose argument is the only argument of the attribute and is a bare field binding
     (positional `{}`/`{0}` or the matching alias).  display.md: such an argument is a REFERENCE to the
-    field, so `{:p}` prints the field's own address; the transparent-delegation shortcut calls
-    `Pointer::fmt(field)` on the field itself instead."""
+    field, so `{:p}` prints the field's own address; the transparent-delegation shortcut used to call
+    `Pointer::fmt(field)` on the field itself."""
     if len(at.pieces) < 1:
         return False
     phs = at.phs()
@@ -537,6 +538,19 @@ def known_transparent_pointer(at, shape):
     if p.target[0] == "alias" and a.alias == p.arg:
         return True
     return False
+
+
+def raw_ident_generic_args(at, shape):
+    """Coverage tag (defect fixed in /repo 3a17d97): type parameters whose field is passed as a bare
+    raw-identifier argument (`r#type`, positional or aliased); fmt/mod.rs `bounded_types` used to compare
+    the argument's `to_string()` ("r#type") with the field's unraw()ed name ("type") and inferred no bound."""
+    out = set()
+    for a in at.pos + at.named:
+        if a.bare is not None:
+            f = shape.fields[a.bare]
+            if f.generic and f.ident.startswith("r#") and f.ident == a.text:
+                out.add(f.generic)
+    return sorted(out)
 
 
 # ---------------------------------------------------------------------------------------------
@@ -590,7 +604,8 @@ def struct_case(cid, rng, nvals):
         meta.update(kind=kind, literal=at.value(), attribute="#[%s(%s)]" % (attr, at.attr_inner()), type=decl,
                     reference=reference_format(at, shape, False))
         trivial = at.trivial()
-        known = known_transparent_pointer(at, shape)
+        known = is_transparent_pointer_arg(at, shape)
+        meta["raw_generic_args"] = raw_ident_generic_args(at, shape)
     elif r < 0.93:
         # ---- attribute-free single field: prints as the field does under the derived trait
         if d == "Debug":
@@ -635,7 +650,7 @@ def struct_case(cid, rng, nvals):
         seen.add(tuple(vals))
         body.append("{ let v = %s%s; cmp(\"v%d\", &format!(\"%s\", v), &v.reference()); }" % (tyname, shape.make(vals), k, placeholder))
     meta["what"] = "%s on %s%s" % (d, decl, (" with " + meta["attribute"]) if "attribute" in meta else "")
-    meta["known"] = known
+    meta["transparent_pointer_arg"] = known
     meta["values"] = body[:]
     return Case(cid, cls, "\n".join(items), "\n".join(body), expect=len(body), meta=meta, trivial=trivial)
 
@@ -648,7 +663,6 @@ def enum_case(cid, rng, nvals):
     enum_casing = rng.choice(CASINGS) if d == "Display" and rng.random() < 0.3 else None
     variants = []
     used_names = set()
-    any_known = False
     kinds = []
     for vi in range(nvar):
         words = rng.sample(WORDS, rng.randint(1, 3))
@@ -668,13 +682,14 @@ def enum_case(cid, rng, nvals):
                 v["attrs"].append("#[display(rename_all = \"%s\")]" % rng.choice(CASINGS))  # irrelevant next to a format
             v["cls"] = at.shape_abs()
             v["trivial"] = at.trivial()
-            v["known"] = known_transparent_pointer(at, shape)
+            v["transparent_pointer_arg"] = is_transparent_pointer_arg(at, shape)
+            v["raw_generic_args"] = raw_ident_generic_args(at, shape)
         elif r < 0.8 and d != "Debug":
             shape = gen_shape(rng, gen_state, kind=rng.choice(["tuple", "named"]), nmin=1, nmax=1, want=suf)
             v.update(shape=shape, kind="implicit", ref="format!(\"%s\", *%s)" % (placeholder, shape.fields[0].ident))
             v["cls"] = "implicit:" + shape.fields[0].ft.key
             v["trivial"] = False
-            v["known"] = False
+            v["transparent_pointer_arg"] = False
         elif d == "Display" and words is not None:
             # unit variant (three spellings) without a format: its name, variant-level rename_all wins
             form = rng.choice(["unit", "unit", "tuple", "named"])
@@ -687,7 +702,7 @@ def enum_case(cid, rng, nvals):
             v.update(shape=shape, kind="unit", ref="%s.to_string()" % rs_str(want), casing=casing, want=want)
             v["cls"] = "name:%s:%s" % (form, casing)
             v["trivial"] = False
-            v["known"] = False
+            v["transparent_pointer_arg"] = False
         else:
             shape = Shape("unit", [])
             at = gen_attr(rng, shape, allow_self=False, helper_ok=False, derive_suffix=suf)
@@ -695,7 +710,7 @@ def enum_case(cid, rng, nvals):
             v["attrs"].append("#[%s(%s)]" % (attr, at.attr_inner()))
             v["cls"] = at.shape_abs()
             v["trivial"] = at.trivial()
-            v["known"] = False
+            v["transparent_pointer_arg"] = False
         variants.append(v)
     g_decl, g_inst = generics_decl(gen_state)
     lines = ["#[derive(derive_more::%s)]" % d]
@@ -740,7 +755,7 @@ def enum_case(cid, rng, nvals):
             k += 1
     cls = (d, "enum", tuple(sorted(set((v["kind"], v["shape"].key(), v["cls"]) for v in variants if not v["trivial"]))))
     meta = {"derive": d, "kind": "enum", "type": "\n".join(lines[:lines.index("}") + 1]) if "}" in lines else "", "what": "%s on enum (%s)" % (d, ", ".join("%s:%s" % (v["name"], v["kind"]) for v in variants)),
-            "variants": [{"name": v["name"], "kind": v["kind"], "attrs": v["attrs"], "reference": v["ref"], "known": v["known"], "cls": v["cls"]} for v in variants],
+            "variants": [{"name": v["name"], "kind": v["kind"], "attrs": v["attrs"], "reference": v["ref"], "transparent_pointer_arg": v["transparent_pointer_arg"], "raw_generic_args": v.get("raw_generic_args", []), "cls": v["cls"]} for v in variants],
             "event_variant": evk, "enum_rename_all": enum_casing}
     return Case(cid, cls, "\n".join(lines), "\n".join(body), expect=len(body), meta=meta, trivial=all(v["trivial"] for v in variants))
 
@@ -808,7 +823,9 @@ def rename_breadth(ctx, n):
         if o["kind"] != "ok":
             ctx.violate("rename_all:rejected:%s" % casing, "documented rename_all input rejected: %s: %s" % (item, o.get("msg")), item=item, outcome=o)
             continue
-        m = re.findall(r'write_str \( "([^"]*)" \)', o["tokens"])
+        m = [x for x in re.findall(r'"([^"]*)"', o["tokens"]) if x != "x"]
+        if len(m) > 1 and want in m:
+            ctx.bump("rename_all_extra_literals")
         if want not in m:
             ctx.violate("rename_all:%s:%s" % (where, casing), "%s: name literal(s) %r in the expansion, documented casing gives %r" % (item, m, want),
                         item=item, expected=want, found=m)
@@ -817,10 +834,6 @@ def rename_breadth(ctx, n):
 # ---------------------------------------------------------------------------------------------
 # offline oracle
 
-KNOWN_KEY = "known:transparent-pointer-arg"
-POINTER_UNIMPL = re.compile(r"the trait bound `[^`]*: (?:\w+::)*Pointer` is not satisfied|doesn't implement `(?:\w+::)*Pointer`|the trait `(?:\w+::)*Pointer` is not implemented")
-
-
 def check(ctx, cases, res):
     for c in cases:
         m = c.meta
@@ -828,15 +841,14 @@ def check(ctx, cases, res):
         if not c.trivial:
             ctx.cls(c.cls)
         variants = m.get("variants")
+        if m.get("transparent_pointer_arg") or variants and any(v["transparent_pointer_arg"] for v in variants):
+            ctx.bump("cases_transparent_pointer_arg")
+        if m.get("raw_generic_args") or variants and any(v.get("raw_generic_args") for v in variants):
+            ctx.bump("cases_raw_ident_generic_arg")
         if c.id in res.compile_errors:
             ctx.bump("cases_compile_error")
             txt = l2.err_text(res.compile_errors[c.id])
-            has_known = m.get("known") or (variants and any(v["known"] for v in variants))
-            if has_known and all(POINTER_UNIMPL.search(common.diag_text(d)) for d in res.compile_errors[c.id]):
-                # same defect, seen at compile time: the shortcut calls Pointer::fmt on a field type without Pointer
-                key = KNOWN_KEY
-            else:
-                key = "compile:%s:%s" % (m["derive"], m.get("kind"))
+            key = "compile:%s:%s" % (m["derive"], m.get("kind"))
             ctx.violate(key, "supported input does not compile (%s): %s" % (m.get("what", c.id), txt[:700]), case=m, items=c.items, errors=txt)
             continue
         if c.id in res.not_run:
@@ -853,10 +865,10 @@ def check(ctx, cases, res):
                     continue
                 if variants:
                     v = variants[m["event_variant"].get(k, 0)]
-                    key = KNOWN_KEY if v["known"] else "mismatch:%s:variant:%s" % (m["derive"], v["kind"])
+                    key = "mismatch:%s:variant:%s" % (m["derive"], v["kind"])
                     what = "%s variant %s %s" % (m["derive"], v["name"], " ".join(v["attrs"]))
                 else:
-                    key = KNOWN_KEY if m.get("known") else "mismatch:%s:struct:%s" % (m["derive"], m.get("kind"))
+                    key = "mismatch:%s:struct:%s" % (m["derive"], m.get("kind"))
                     what = m.get("what", c.id)
                 ctx.violate(key, "%s [%s]: derived impl printed %r, reference %r" % (what, k, e["got"][:300], e["want"][:300]),
                             case=m, items=c.items, body=c.body, event=e)
